@@ -339,6 +339,14 @@ class VPArr(VReal):
   __slots__ = ()
 
 
+class VPCols(V):
+  """A 2-D numpy array in the pointwise view whose COLUMN matters: one generic row, `a[:, j]` is col(j)."""
+  __slots__ = ('col',)
+
+  def __init__(self, col):
+    self.col = col
+
+
 class VSet(V):
   """A finite set of objects: membership array + exact size (with the cardinality facts assumed at creation)."""
   __slots__ = ('has', 'size')
